@@ -1,4 +1,5 @@
 #!/bin/sh
+export VERIF_EVIDENCE_DIR=/tmp/verif_experiment_evidence; mkdir -p $VERIF_EVIDENCE_DIR/replays
 # usage: seed_try.sh <prop-of-worktree> <check ids...>  : verifies make check + applies patch to /repo, runs checks, reverts
 P=$1; shift
 cd /tmp/wt_$P && git status --short | head -3 && make check 2>&1 | grep -E '^# (TOTAL|PASS|FAIL)'
